@@ -219,6 +219,13 @@ func (w *world) relatedText(r *vh.Rng, mp *mpoint, kind int) (string, bool) {
 		base = analyse(t)
 	}
 	ts := append([]string(nil), base...)
+	// The same edits are also made on the raw words of the text as it stands (stop words, case and
+	// punctuation included): then the raw word set / word count survive as well, not only token
+	// statistics.  Otherwise the edited token list is written out plainly or decorated.
+	style := r.Intn(100)
+	if style < 35 && mp.text != nil && len(analyse(*mp.text)) > 0 {
+		ts = strings.Fields(*mp.text)
+	}
 	terms := firstOccurrences(ts)
 	has := counts(ts)
 	fresh := func() string {
@@ -234,7 +241,8 @@ func (w *world) relatedText(r *vh.Rng, mp *mpoint, kind int) (string, bool) {
 		if mp.text != nil && len(analyse(*mp.text)) > 0 {
 			return *mp.text, true
 		}
-	case 1: // same token sequence, other raw text (decorate below)
+	case 1: // same token sequence, other raw text
+		style = 99
 	case 2: // same multiset, other order
 		for i := len(ts) - 1; i > 0; i-- {
 			j := r.Intn(i + 1)
@@ -296,6 +304,9 @@ func (w *world) relatedText(r *vh.Rng, mp *mpoint, kind int) (string, bool) {
 		if len(mp.past) > 0 {
 			return vh.Pick(r, mp.past), true
 		}
+	}
+	if style < 60 {
+		return strings.Join(ts, " "), true
 	}
 	return decorate(r, ts), true
 }
@@ -1299,9 +1310,11 @@ func (w *world) search(o *vh.Out, r *vh.Rng, q query) {
 // Queries aimed at the terms on which the stored bucket and the corpus statistics differ (none on a
 // tree that maintains the index): each term alone, uncut and cut to one, then with a second term.
 // They are ordinary queries: the answer goes to the model and to the property oracle like any other.
+var aimQueries = true
+
 func (w *world) aimed(o *vh.Out, r *vh.Rng) {
 	sus := w.suspects
-	if len(sus) == 0 {
+	if len(sus) == 0 || !aimQueries {
 		return
 	}
 	if len(sus) > 6 {
@@ -1354,6 +1367,7 @@ func main() {
 	nh := flag.Int("n", 30, "number of histories")
 	nq := flag.Int("q", 6, "queries after each batch")
 	dir := flag.String("out", "", "output directory")
+	flag.BoolVar(&aimQueries, "aim", true, "after a batch, query the terms on which the stored bucket differs from the corpus statistics")
 	scen := flag.Bool("scenarios", true, "replay scenarios.txt before the random histories")
 	replay := flag.String("replay", "", "replay the op lines of this file against the implementation")
 	flag.Parse()
